@@ -343,7 +343,9 @@ def real_runs(ctx, lab, kernels, per_kernel):
             if u_flag != "U1":
                 ctx.count("hyp_lines_unique_false")
             if mpar != mseq:
-                ctx.correspondence_break("model-parallel-vs-sequential", {"kernel": kern.name, "n": n})
+                ctx.count("model_par_vs_seq")
+                if ctx.counts["model_par_vs_seq"] <= 2:
+                    ctx.correspondence_break("model-parallel-vs-sequential", {"kernel": kern.name, "n": n})
             if not L.same_result(mpar, par.lcd):
                 ctx.count("model_disagreements")
                 if ctx.counts["model_disagreements"] <= 2:
@@ -439,7 +441,7 @@ def run(ctx):
     big = ctx.tier == "thorough" or bool(ctx.broken)
     bad_cover = sweep(ctx, lab, 400 if big else 120)
     sentinel_runs(ctx, lab, bad_cover, 14 if big else 4)
-    kernels = make_kernels(ctx, lab, 48 if ctx.tier == "thorough" else (20 if big else 12))
+    kernels = make_kernels(ctx, lab, 110 if ctx.tier == "thorough" else (20 if big else 12))
     nontrivial = real_runs(ctx, lab, kernels, 4 if ctx.tier == "thorough" else 3)
     report_runs(ctx, lab, kernels, 2 if ctx.tier == "thorough" else 1)
     ctx.cov["evaluations"] = (ctx.counts.get("sweep_runs", 0) + ctx.counts.get("sentinel_runs", 0)
